@@ -207,6 +207,40 @@ fn check_outline(cx: &mut Cx, desc: &str, d: &Doc, ox: usize, oy: usize, w: usiz
     }
 }
 
+/// every arc: both end points meet exactly one line end; the centre lies inside the box; the arc bulges away from the box centre
+fn check_arcs_convex(cx: &mut Cx, desc: &str, d: &Doc, left: f64, top: f64, right: f64, bottom: f64) {
+    let (bcx, bcy) = ((left + right) / 2.0, (top + bottom) / 2.0);
+    let lines: Vec<&El> = d.of(Kind::Line).collect();
+    for a in d.of(Kind::Path) {
+        let (sx, sy, ex, ey) = (a.xs[0], a.ys[0], a.xs[1], a.ys[1]);
+        for (px, py) in [(sx, sy), (ex, ey)] {
+            let n = lines.iter().filter(|l| (l.xs[0], l.ys[0]) == (px, py) || (l.xs[1], l.ys[1]) == (px, py)).count();
+            if n != 1 {
+                cx.fail("outline-continuity", format!("{}: end point ({},{}) of {} coincides with the end of {} lines (expected exactly one)", desc, px, py, a.brief(), n));
+                return;
+            }
+        }
+        let (ccx, ccy, r) = svg::arc_center(sx, sy, ex, ey, a.lens[0], a.flags[1] == 1, a.flags[2] == 1);
+        let inside = ccx > left - 1e-6 && ccx < right + 1e-6 && ccy > top - 1e-6 && ccy < bottom + 1e-6;
+        let a0 = (sy - ccy).atan2(sx - ccx);
+        let a1 = (ey - ccy).atan2(ex - ccx);
+        let tau = std::f64::consts::PI * 2.0;
+        let sweep = a.flags[2] == 1;
+        let mut delta = if sweep { a1 - a0 } else { a0 - a1 };
+        while delta < 0.0 {
+            delta += tau
+        }
+        let mid_ang = if sweep { a0 + delta / 2.0 } else { a0 - delta / 2.0 };
+        let (mx, my) = (ccx + r * mid_ang.cos(), ccy + r * mid_ang.sin());
+        let (chx, chy) = ((sx + ex) / 2.0, (sy + ey) / 2.0);
+        let dist = |x: f64, y: f64| ((x - bcx).powi(2) + (y - bcy).powi(2)).sqrt();
+        if !inside || dist(mx, my) <= dist(chx, chy) || a.flags[1] == 1 {
+            cx.fail("outline-convexity", format!("{}: {} has its centre at ({:.2},{:.2}) and mid point ({:.2},{:.2}); it does not bulge outward from the outline [{},{}]-[{},{}]", desc, a.brief(), ccx, ccy, mx, my, left, top, right, bottom));
+            return;
+        }
+    }
+}
+
 const CORNERS: [(char, char, char, char); 4] = [('.', '.', '\'', '\''), (',', '.', '\'', '\''), ('.', '.', '`', '\''), (',', '.', '`', '\'')];
 
 impl Prop for C14 {
@@ -234,7 +268,23 @@ impl Prop for C14 {
         };
         let offs2 = offs.clone();
         let offs3 = offs.clone();
+        let (ww, wh) = if tier == Tier::Quick { (8usize, 4usize) } else { (20, 10) };
+        let offs4 = offs.clone();
         vec![
+            Scope::new("wide-outlines", "rounded outlines in the wide style (corner characters one column inside the bars, radius of a whole cell) w x h x corner style x stub side x stub row", move |f| {
+                for w in 1..=ww {
+                    for h in 1..=wh {
+                        for cs in 0..CORNERS.len() {
+                            for side in 0..2 {
+                                for row in 0..h {
+                                    let (ox, oy) = offs4[(w + h + row) % offs4.len()];
+                                    f(Case::sn("wide", vec![w as i64, h as i64, cs as i64, side, row as i64, ox + 1, oy]));
+                                }
+                            }
+                        }
+                    }
+                }
+            }),
             Scope::new("arrows", "direction x head glyph x line character x length x offset", move |f| {
                 for d in 0..8u8 {
                     for (hi, _) in heads_for(d).iter().enumerate() {
@@ -330,6 +380,49 @@ impl Prop for C14 {
                 check_bullet(cx, &desc, &doc, b, bc);
                 if cx.viols.len() == nv {
                     cx.outcome(&("bullet", b, d, mid));
+                }
+            }
+            "wide" => {
+                // corners one column inside the bars:  .--.   /  |    |  /  '--'  with bars at columns ox and ox+w+3
+                let (w, h, cs, side, row, ox, oy) = (n[0] as usize, n[1] as usize, n[2] as usize, n[3], n[4] as usize, n[5] as usize, n[6] as usize);
+                let (tl, tr, bl, br) = CORNERS[cs];
+                let mut cv = shapes::Canvas::new();
+                cv.put(ox as i32 + 1, oy as i32, tl);
+                cv.put((ox + w + 2) as i32, oy as i32, tr);
+                cv.put(ox as i32 + 1, (oy + h + 1) as i32, bl);
+                cv.put((ox + w + 2) as i32, (oy + h + 1) as i32, br);
+                for x in 0..w {
+                    cv.put((ox + 2 + x) as i32, oy as i32, '-');
+                    cv.put((ox + 2 + x) as i32, (oy + h + 1) as i32, '-');
+                }
+                for y in 0..h {
+                    cv.put(ox as i32, (oy + 1 + y) as i32, '|');
+                    cv.put((ox + w + 3) as i32, (oy + 1 + y) as i32, '|');
+                }
+                if side == 0 {
+                    cv.put(ox as i32 - 1, (oy + 1 + row) as i32, '-');
+                } else {
+                    cv.put((ox + w + 4) as i32, (oy + 1 + row) as i32, '-');
+                }
+                let body = cv.render();
+                let minx = if side == 0 { ox - 1 } else { ox };
+                let drawing = crate::enumr::shift(&body, minx, oy);
+                let doc = match cx.conv_doc(&drawing, &Sett::bare()) {
+                    Some(x) => x,
+                    None => return,
+                };
+                cx.compared();
+                // the statement only speaks about corners that ARE arcs: every arc must be continuous and convex
+                let arcs: Vec<&El> = doc.of(Kind::Path).collect();
+                if arcs.is_empty() {
+                    cx.tally("wide outline drawn without arcs (skipped)");
+                    return;
+                }
+                let nv = cx.viols.len();
+                let desc = format!("wide rounded outline {}x{} corners {}{}{}{} with a stub on side {} row {} at ({},{})\n{}", w, h, tl, tr, bl, br, side, row, ox, oy, drawing);
+                check_arcs_convex(cx, &desc, &doc, 8.0 * ox as f64 + 4.0, 16.0 * oy as f64 + 8.0, 8.0 * (ox + w + 3) as f64 + 4.0, 16.0 * (oy + h + 1) as f64 + 8.0);
+                if cx.viols.len() == nv {
+                    cx.outcome(&("wide", cs, side, arcs.len()));
                 }
             }
             _ => {
